@@ -22,7 +22,9 @@ def check(pid, **kw):
 
 check(
     "C01",
-    runs=[dict(harness="C01_fft", flavour="plain")],
+    runs=[dict(harness="C01_fft", flavour="plain"),
+          # thorough only: the quick workload once more on the ASan+UBSan build (same oracles; any sanitizer report is a violation)
+          dict(harness="C01_fft", flavour="asan", tiers=("thorough",), harness_tier="quick", timeout={"quick": 3600, "thorough": 14400})],
     rule=("every transform length n (quick: all n<=1024 plus one seeded residue class of 1025..4096 and sampled large n; "
           "thorough: all n<=4096 plus sampled n up to 2^17) x 8 input classes x {fft complex, fft real, plans (array and "
           "pointer overloads), rfft}; pad/truncate targets; czt over random (n,m,w,a). One evaluation = one transform result "
@@ -31,7 +33,7 @@ check(
     exhaustive_subspaces={"quick": ["all lengths 1..1024 x 8 input classes x 4 entry points", "pad/truncate targets 1..2n for n<=24"],
                           "thorough": ["all lengths 1..4096 x 8 input classes x 4 entry points", "pad/truncate targets 1..2n for n<=48"]},
     min_distinct={"quick": 20000, "thorough": 100000},
-    technique="runtime monitor: differential oracle against a long-double DFT over enumerated lengths and input classes",
+    technique="runtime monitor: differential oracle against a long-double DFT over enumerated lengths and input classes; thorough: the quick workload repeated on the ASan+UBSan build",
     level_text=("Every length 1..4096 (thorough; 1..1024 + a residue class in quick) and sampled lengths to 2^17 are executed "
                 "through every forward-transform entry point and each result is compared with an extended-precision DFT; held on "
                 "the K executions listed in the evidence, which also records which planner path each length reached."),
@@ -43,7 +45,9 @@ check(
 
 check(
     "C02",
-    runs=[dict(harness="C02_inverse", flavour="plain")],
+    runs=[dict(harness="C02_inverse", flavour="plain"),
+          # thorough only: the quick workload once more on the ASan+UBSan build (same oracles; any sanitizer report is a violation)
+          dict(harness="C02_inverse", flavour="asan", tiers=("thorough",), harness_tier="quick", timeout={"quick": 3600, "thorough": 14400})],
     rule=("ifft/IfftPlan for every n (quick: n<=1024 + a residue class of ..8192; thorough: all n<=8192, three inputs each) against the long-double inverse "
           "DFT and as round trip; irfft/IfftPlanR for every even n in both input forms (full spectrum, first n/2+1 bins) against the real "
           "signal whose exact DFT was supplied, odd n must throw; stft->istft for every (window of 11 kinds, overlap, nfft, range, method) "
@@ -54,7 +58,7 @@ check(
                           "thorough": ["ifft: all n<=8192; irfft: all even n<=8192, all odd n rejected", "stft: all overlaps 0..nwin-1 for nwin<=128 x 11 windows x 2 methods x 3 ranges"]},
     min_distinct={"quick": 20000, "thorough": 150000},
     min_obs={"quick": {"cola_pairs_accepted": 100, "odd_rejections_seen": 500}, "thorough": {"cola_pairs_accepted": 100, "odd_rejections_seen": 2000}},
-    technique="runtime monitor: long-double inverse-DFT oracle, exception monitor for odd n, per-sample reconstruction oracle with harness-computed window weights",
+    technique="runtime monitor: long-double inverse-DFT oracle, exception monitor for odd n, per-sample reconstruction oracle with harness-computed window weights; thorough: the quick workload repeated on the ASan+UBSan build",
     level_text=("Every inverse-transform entry point is executed for every length in the stated ranges and compared with an "
                 "extended-precision reference; every iscola-accepted STFT configuration of the grid is round-tripped and judged sample "
                 "by sample. Held on the executions counted in the evidence."),
@@ -141,17 +145,17 @@ check(
           # thorough only: a reduced quick workload on the shipped -O2 build under valgrind memcheck (state carried between frames
           # must never be read before it was written)
           dict(harness="C06_framing", flavour="plain", wrapper="memcheck", tiers=("thorough",), harness_tier="quick",
-               opts={"kmax": "6", "scale": "0.25"}, timeout={"quick": 3600, "thorough": 14400})],
+               opts={"kmax": "8", "scale": "1"}, timeout={"quick": 3600, "thorough": 14400})],
     rule=("each of ~115 processor configurations (FirFilter R/C, FftFilter R/C, FIRDecimator, FIRInterpolator, FIRRateConverter incl. 160/441 "
           "and 147/160, FIRResampler, Delay R/C, MedianFilter, MAFilter R/C, HilbertFilter, Tuner, Agc R/C, Compressor, Limiter, NoiseGate, "
-          "LMS/NLMS R/C, RLS R/C with lock toggles on sample indices): every composition of k granules (k<=9 quick, k<=12 thorough; asan "
+          "LMS/NLMS R/C, RLS R/C with lock toggles on sample indices): every composition of k granules (k<=9 quick, k<=14 thorough; asan "
           "pass k<=7) and random heavy-tailed framings of streams up to 1e4 (quick) / 1e5 (thorough) samples, compared with one call on "
           "the whole stream by a fresh instance (equal output counts, |diff| <= 1e-12*scale); interleaved instances vs solo runs; for processors with a granule above one, calls of an inadmissible length are "
           "attempted between frames of the random framings and must be rejected without effect. "
           "non-trivial = framing with more than one frame; distinct = (configuration, framing)."),
     exhaustive_subspaces={"quick": ["all 2^(k-1) framings of k<=9 granules per configuration"],
-                          "thorough": ["all 2^(k-1) framings of k<=12 granules per configuration (k<=6 for granules above 500 samples)"]},
-    min_distinct={"quick": 20000, "thorough": 200000},
+                          "thorough": ["all 2^(k-1) framings of k<=14 granules per configuration (k<=6 for granules above 500 samples)"]},
+    min_distinct={"quick": 30000, "thorough": 1200000},
     min_obs={"quick": {"interleaved_instance_pairs": 100}, "thorough": {"interleaved_instance_pairs": 100}},
     technique="runtime monitor: differential check over framing histories (whole-stream run vs framed run of the same binary), plus instance-interleaving monitor; short part repeated under ASan (thorough: also under valgrind memcheck)",
     level_text=("All framings of short streams and random framings of long streams are executed for every processor configuration and "
@@ -162,7 +166,9 @@ check(
 
 check(
     "C07",
-    runs=[dict(harness="C07_fir", flavour="plain")],
+    runs=[dict(harness="C07_fir", flavour="plain"),
+          # thorough only: the quick workload once more on the ASan+UBSan build (same oracles; any sanitizer report is a violation)
+          dict(harness="C07_fir", flavour="asan", tiers=("thorough",), harness_tier="quick", timeout={"quick": 3600, "thorough": 14400})],
     rule=("FirFilter and FftFilter (real, complex) from rest for coefficient lengths 2..128, every FFT block boundary (2^k-2..2^k+2, k=7..10) "
           "and sampled lengths to 1024 (thorough: every length 2..1024), coefficient kinds {random, symmetric, sparse, single tap first/last}, input lengths around the block "
           "size and long inputs (2e4 quick / 1e5 thorough) with random, impulsive and 1e+-12 dynamic range content, against the long-double "
@@ -173,7 +179,7 @@ check(
     exhaustive_subspaces={"quick": ["xcorr: all length pairs (n1,n2) in 1..48 x 1..48, real and complex"],
                           "thorough": ["xcorr: all length pairs (n1,n2) in 1..96 x 1..96, real and complex", "every coefficient length 2..1024 x 11 input lengths x real/complex"]},
     min_distinct={"quick": 7000, "thorough": 35000},
-    technique="runtime monitor: long-double evaluation of the defining convolution / correlation sums as oracle, direct-vs-FFT differential",
+    technique="runtime monitor: long-double evaluation of the defining convolution / correlation sums as oracle, direct-vs-FFT differential; thorough: the quick workload repeated on the ASan+UBSan build",
     level_text=("Filters and correlations are executed over the stated grid and each output sample is compared with the defining sum in "
                 "extended precision with a rounding-error-model tolerance; held on the evaluations in the evidence."),
     level_note="trusted: long double reference sums; tolerances derived from the rounding analysis of the definitions (margins recorded in the evidence)",
@@ -182,7 +188,9 @@ check(
 
 check(
     "C08",
-    runs=[dict(harness="C08_multirate", flavour="plain")],
+    runs=[dict(harness="C08_multirate", flavour="plain"),
+          # thorough only: the quick workload once more on the ASan+UBSan build (same oracles; any sanitizer report is a violation)
+          dict(harness="C08_multirate", flavour="asan", tiers=("thorough",), harness_tier="quick", timeout={"quick": 3600, "thorough": 14400})],
     rule=("all reduced L/M with L,M<=16 (thorough: <=24, seven coefficient lengths each) plus audio ratios (160/441, 441/160, 147/160, 160/147, 320/147, 147/320): FIRInterpolator / "
           "FIRDecimator / FIRRateConverter / FIRResampler with the default design and with random symmetric h of lengths that are and are "
           "not multiples of L or M; the integer phase c is found on a calibration input by exhaustive search (unique exact fit) and must then "
@@ -193,7 +201,7 @@ check(
     exhaustive_subspaces={"quick": ["all reduced ratios L/M with L,M in 1..16 (159) + 8 audio ratios"], "thorough": ["all reduced ratios L/M with L,M in 1..16 (159) + 8 audio ratios"]},
     min_distinct={"quick": 2000, "thorough": 4000},
     min_obs={"quick": {"resample_accuracy_cases": 200, "non_multiple_frames": 300}, "thorough": {"resample_accuracy_cases": 400, "non_multiple_frames": 300}},
-    technique="runtime monitor: long-double reference polyphase chain with phase calibrated once per configuration; least-squares tone fit for resample()",
+    technique="runtime monitor: long-double reference polyphase chain with phase calibrated once per configuration; least-squares tone fit for resample(); thorough: the quick workload repeated on the ASan+UBSan build",
     level_text=("Every converter configuration of the grid is executed on several inputs and framings and each output sample is compared "
                 "with one fixed phase of the textbook chain evaluated in extended precision; resample() is judged on length, alignment and "
                 "residual. Held on the outputs counted in the evidence."),
@@ -263,7 +271,9 @@ check(
 
 check(
     "C11",
-    runs=[dict(harness="C11_design", flavour="plain")],
+    runs=[dict(harness="C11_design", flavour="plain"),
+          # thorough only: the quick workload once more on the ASan+UBSan build (same oracles; any sanitizer report is a violation)
+          dict(harness="C11_design", flavour="asan", tiers=("thorough",), harness_tier="quick", timeout={"quick": 3600, "thorough": 14400})],
     rule=("fir1 for every order 2..256 (plus sampled orders to 2000), cut-offs {0.02,0.1,0.25,0.5,0.75,0.9,0.98} and random, all four types, "
           "default window and custom windows (hann-like, rectangular, random): length rule, symmetry (4*eps*max|h|), |H(0)|=1 (low) / |H(pi)|=1 "
           "(high) within 64*eps*sum|h|, wrong-length custom windows rejected, and for default designs whose bands are all wider than 16/(n+1) "
@@ -274,7 +284,7 @@ check(
     exhaustive_subspaces={"quick": ["all fir1 orders 2..256", "all window lengths 3..512"], "thorough": ["all fir1 orders 2..256", "all window lengths 3..512"]},
     min_distinct={"quick": 20000, "thorough": 30000},
     min_obs={"quick": {"mask_checks": 300, "wrong_window_length_cases": 1000}, "thorough": {"mask_checks": 3000, "wrong_window_length_cases": 1000}},
-    technique="runtime monitor: closed-form window references and a long-double frequency-response evaluator as oracle over the enumerated orders/lengths",
+    technique="runtime monitor: closed-form window references and a long-double frequency-response evaluator as oracle over the enumerated orders/lengths; thorough: the quick workload repeated on the ASan+UBSan build",
     level_text=("Designs are executed for every order / length of the quantifier and compared with closed forms and response masks "
                 "evaluated in extended precision; held on the evaluations counted in the evidence."),
     level_note="trusted: the closed-form definitions in the harness (MATLAB/scipy conventions) and the long-double I0 series",
@@ -283,7 +293,9 @@ check(
 
 check(
     "C12",
-    runs=[dict(harness="C12_adaptive", flavour="plain")],
+    runs=[dict(harness="C12_adaptive", flavour="plain"),
+          # thorough only: the quick workload once more on the ASan+UBSan build (same oracles; any sanitizer report is a violation)
+          dict(harness="C12_adaptive", flavour="asan", tiers=("thorough",), harness_tier="quick", timeout={"quick": 3600, "thorough": 14400})],
     rule=("LMS, NLMS and RLS filters, real and complex, lengths {1..17,20,24,31,32,33,48,64}, random step sizes / leakage / forgetting factors "
           "0.9..1 / diagonal loads 1e-2..1e4, random unknown systems and random lock schedules: streams fed one sample at a time - e == d-y "
           "exactly, y equals sum_j c_j x[k-j] with c = coeffs() read BEFORE the call ((L+8)*eps*sum|c||x|), coefficients bitwise unchanged "
@@ -294,7 +306,7 @@ check(
     min_distinct={"quick": 6000, "thorough": 400000},
     min_obs={"quick": {"locked_samples": 50000, "adapting_samples": 200000, "convergence_runs": 600, "rls_batch_runs": 300},
              "thorough": {"locked_samples": 3000000, "adapting_samples": 12000000, "convergence_runs": 40000, "rls_batch_runs": 20000}},
-    technique="runtime monitor: per-sample a-priori oracle using coeffs() read before each call, long-double shadow recursion, batch least-squares reference",
+    technique="runtime monitor: per-sample a-priori oracle using coeffs() read before each call, long-double shadow recursion, batch least-squares reference; thorough: the quick workload repeated on the ASan+UBSan build",
     level_text=("Each filter is driven sample by sample with its coefficients observed before every call, so that the a-priori property, "
                 "the error identity and the lock are judged per sample; convergence and the least-squares equivalence are judged on "
                 "complete runs. Held on the samples counted in the evidence."),
@@ -304,7 +316,9 @@ check(
 
 check(
     "C13",
-    runs=[dict(harness="C13_spectrum", flavour="plain")],
+    runs=[dict(harness="C13_spectrum", flavour="plain"),
+          # thorough only: the quick workload once more on the ASan+UBSan build (same oracles; any sanitizer report is a violation)
+          dict(harness="C13_spectrum", flavour="asan", tiers=("thorough",), harness_tier="quick", timeout={"quick": 3600, "thorough": 14400})],
     rule=("welch for nfft in {8,...,4096}, window lengths <= nfft from 8 window families, overlaps {0, wl/2, wl-1, random}, density and "
           "power scaling, real and complex coloured random signals: lengths nfft/2+1 | nfft, non-negative, frequency axis strictly "
           "increasing with spacing 1/nfft, and every value must equal the long-double reference Welch estimate AT THE FREQUENCY THE AXIS "
@@ -316,7 +330,7 @@ check(
     min_distinct={"quick": 10000, "thorough": 300000},
     min_obs={"quick": {"label_checks_complex": 600, "label_checks_real": 300, "density_sum_checks": 300, "mscohere_checks": 200},
              "thorough": {"label_checks_complex": 2400, "label_checks_real": 1200, "density_sum_checks": 1200, "mscohere_checks": 800}},
-    technique="runtime monitor: complete long-double reference Welch/coherence estimator, label-aware comparison, independent conservation identity and tone-labelling oracle",
+    technique="runtime monitor: complete long-double reference Welch/coherence estimator, label-aware comparison, independent conservation identity and tone-labelling oracle; thorough: the quick workload repeated on the ASan+UBSan build",
     level_text=("Spectral estimators are executed over the parameter grid and compared value by value with a reference written from the "
                 "definition; labelling is judged on tones finer than the bin spacing; held on the evaluations counted in the evidence."),
     level_note="trusted: long double radix-2 FFT in the reference (nfft is a power of two here); windows come from dsplib::window (judged by C11)",
@@ -325,7 +339,9 @@ check(
 
 check(
     "C14",
-    runs=[dict(harness="C14_analytic", flavour="plain")],
+    runs=[dict(harness="C14_analytic", flavour="plain"),
+          # thorough only: the quick workload once more on the ASan+UBSan build (same oracles; any sanitizer report is a violation)
+          dict(harness="C14_analytic", flavour="asan", tiers=("thorough",), harness_tier="quick", timeout={"quick": 3600, "thorough": 14400})],
     rule=("hilbert(x) for lengths 3..4096 (quick: all to 300 + a residue class; thorough: all to 1200 + two residue classes), odd and even, six "
           "input kinds with and without DC / Nyquist content: Re z == x (8*n*eps*max|x|), long-double DFT of z vanishes on the negative bins "
           "(32*n*eps), hilbert(x,m) == hilbert(pad/truncate); HilbertFilter lengths {31,32,51,64,101,128,201,300,401} x tw in "
@@ -336,7 +352,7 @@ check(
     min_distinct={"quick": 2500, "thorough": 20000},
     min_obs={"quick": {"hilbert_filter_tones": 200, "tuner_streams_fractional_f": 10, "tuner_streams_integer_f": 5},
              "thorough": {"hilbert_filter_tones": 700, "tuner_streams_fractional_f": 20, "tuner_streams_integer_f": 10}},
-    technique="runtime monitor: definition-based oracles in long double (DFT of the analytic signal, delayed/quadrature tone, exact phase of the stream index)",
+    technique="runtime monitor: definition-based oracles in long double (DFT of the analytic signal, delayed/quadrature tone, exact phase of the stream index); thorough: the quick workload repeated on the ASan+UBSan build",
     level_text=("Each tool is executed over the stated lengths, frequencies and framings and compared with its mathematical definition "
                 "evaluated in extended precision; held on the evaluations counted in the evidence."),
     level_note="trusted: long double DFT and trigonometric functions; M is read from impz()",
@@ -344,7 +360,9 @@ check(
 
 check(
     "C15",
-    runs=[dict(harness="C15_primes", flavour="plain")],
+    runs=[dict(harness="C15_primes", flavour="plain"),
+          # thorough only: the quick workload once more on the ASan+UBSan build (same oracles; any sanitizer report is a violation)
+          dict(harness="C15_primes", flavour="asan", tiers=("thorough",), harness_tier="quick", timeout={"quick": 3600, "thorough": 14400})],
     rule=("isprime, factor, nextprime, nextpow2, ispow2 for every n in [0,2^20] + one residue class of 4096-blocks up to 2^22 (quick) / every n in "
           "[0,2^22] (thorough) against a sieve of Eratosthenes; all n within 512 (quick) / 4096 (thorough) of 2^16, 2^24, 2^31, 65521^2 and 2^32, "
           "squares and products of two primes near 2^16, and 2e4 (quick) / 1e6 (thorough) random 32-bit arguments against deterministic "
@@ -353,7 +371,7 @@ check(
           "32*(sqrt(n)+64); nextprime: that times (gap+1); primes: 32*(pi(n)+1)*(sqrt(n)+64)). 48/400 seeded call histories mix repeated, decreasing, prime and tiny arguments over primes/isprime/factor/nextprime (answers must not depend on earlier calls). distinct = (function, argument)."),
     exhaustive_subspaces={"quick": ["all n in [0, 2^20] for isprime/factor/nextprime/nextpow2/ispow2"], "thorough": ["all n in [0, 2^22] for isprime/factor/nextprime/nextpow2/ispow2"]},
     min_distinct={"quick": 3000000, "thorough": 15000000},
-    technique="runtime monitor: sieve / Miller-Rabin oracle over exhaustive and boundary arguments, logical step-budget hook as termination oracle",
+    technique="runtime monitor: sieve / Miller-Rabin oracle over exhaustive and boundary arguments, logical step-budget hook as termination oracle; thorough: the quick workload repeated on the ASan+UBSan build",
     level_text=("Every argument of the exhaustive range and of the boundary windows is executed and compared with number-theoretic "
                 "references, with termination decided on a logical step counter rather than wall-clock; held on the arguments counted in "
                 "the evidence."),
@@ -363,7 +381,9 @@ check(
 
 check(
     "C16",
-    runs=[dict(harness="C16_order", flavour="plain")],
+    runs=[dict(harness="C16_order", flavour="plain"),
+          # thorough only: the quick workload once more on the ASan+UBSan build (same oracles; any sanitizer report is a violation)
+          dict(harness="C16_order", flavour="asan", tiers=("thorough",), harness_tier="quick", timeout={"quick": 3600, "thorough": 14400})],
     rule=("sort (ascending and descending) and median for every length 1..4000 (quick: 1..400 + a residue class) x content {distinct, "
           "repeated, sorted, reversed, constant, plateaus with signed zeros} plus shuffled draws from alphabets of 2, 3, 5, 8 and n/4 values for the median: output ordered, index vector a permutation, sorted[i] == "
           "x[idx[i]] bitwise, input untouched; MedianFilter (initial history value) and medfilt (zero padded, centred) for every order 3..64 (thorough: 3..160) "
@@ -376,7 +396,7 @@ check(
     min_distinct={"quick": 25000, "thorough": 300000},
     min_obs={"quick": {"corr_pairs": 10000, "median_filter_outputs": 100000, "median_tied_inputs": 5000},
              "thorough": {"corr_pairs": 100000, "median_filter_outputs": 5000000, "median_tied_inputs": 100000}},
-    technique="runtime monitor: brute-force order-statistic and O(n^2) rank-correlation references as oracle, exhaustive permutations",
+    technique="runtime monitor: brute-force order-statistic and O(n^2) rank-correlation references as oracle, exhaustive permutations; thorough: the quick workload repeated on the ASan+UBSan build",
     level_text=("Sorting, medians and correlation coefficients are executed over the stated lengths, orders and all short permutations "
                 "and compared with brute-force definitions; held on the evaluations counted in the evidence."),
     level_note="trusted: std::sort in the brute-force references; long double sums for Pearson",
@@ -384,7 +404,9 @@ check(
 
 check(
     "C17",
-    runs=[dict(harness="C17_math", flavour="plain")],
+    runs=[dict(harness="C17_math", flavour="plain"),
+          # thorough only: the quick workload once more on the ASan+UBSan build (same oracles; any sanitizer report is a violation)
+          dict(harness="C17_math", flavour="asan", tiers=("thorough",), harness_tier="quick", timeout={"quick": 3600, "thorough": 14400})],
     rule=("each function of the math toolbox (abs, abs2, angle, exp, expj, log/log2/log10, every power overload incl. array forms, tanh, round, "
           "sum, cumsum, dot, mean, stddev, rms, norm p=1,2,3,4,7, min/max/argmin/argmax/peak2peak real and complex, pow2db/db2pow/mag2db/db2mag, "
           "deg2rad/rad2deg, real/imag/conj/complex, linspace, arange, repelem, flip, upsample/downsample, zeropad, delayseq) on random arguments "
@@ -396,7 +418,7 @@ check(
     exhaustive_subspaces={"quick": ["upsample/downsample/repelem/delayseq/zeropad/flip for every n<=12, factor, phase, shift", "linspace n=1..100"],
                           "thorough": ["upsample/downsample/repelem/delayseq/zeropad/flip for every n<=12, factor, phase, shift", "linspace n=1..100", "integer arange for every start, stop, step in [-12,12]"]},
     min_distinct={"quick": 2500000, "thorough": 80000000},
-    technique="runtime monitor: long-double evaluation of each mathematical definition as oracle with rounding-model tolerances",
+    technique="runtime monitor: long-double evaluation of each mathematical definition as oracle with rounding-model tolerances; thorough: the quick workload repeated on the ASan+UBSan build",
     level_text=("Every toolbox function is executed on special points and log-uniform random arguments and compared with its definition "
                 "in extended precision; shape functions are enumerated for small sizes. Held on the evaluations counted in the evidence."),
     level_note="trusted: long double libm (expl, logl, powl, atan2l ...); complex dot is taken as the bilinear sum the library documents by its use (no conjugation)",
@@ -407,7 +429,9 @@ check(
 
 check(
     "C18",
-    runs=[dict(harness="C18_delay", flavour="plain")],
+    runs=[dict(harness="C18_delay", flavour="plain"),
+          # thorough only: the quick workload once more on the ASan+UBSan build (same oracles; any sanitizer report is a violation)
+          dict(harness="C18_delay", flavour="asan", tiers=("thorough",), harness_tier="quick", timeout={"quick": 3600, "thorough": 14400})],
     rule=("white signals of 128, 129 and 200 samples with every integer shift in [-len/4, len/4], noiseless and with noise 30..60 dB below, "
           "real and complex, plus signals to 5000 samples with sampled shifts and sampling rates 1..48000: finddelay == d exactly, "
           "|gccphat.tau*fs - d| <= 0.5, delayseq == exact shift with zero fill, peakloc(real) == vertex of the parabola (long double); "
@@ -419,7 +443,7 @@ check(
     min_distinct={"quick": 7000, "thorough": 300000},
     min_obs={"quick": {"delay_cases": 500, "detections_at_true_preamble_end": 100, "detector_streams_expecting_silence": 10},
              "thorough": {"delay_cases": 1000, "detections_at_true_preamble_end": 1000, "detector_streams_expecting_silence": 100}},
-    technique="runtime monitor: ground truth by construction for delays; long-double matched-filter statistic as oracle for the first detection event of a stream",
+    technique="runtime monitor: ground truth by construction for delays; long-double matched-filter statistic as oracle for the first detection event of a stream; thorough: the quick workload repeated on the ASan+UBSan build",
     level_text=("Estimators are executed on signals whose delay / preamble position is known by construction; the detector's first report "
                 "is compared with an extended-precision evaluation of its documented statistic. Held on the streams counted in the evidence."),
     level_note="trusted: the long-double statistic r = |h^H x|^2/(|h|^2 |x|^2); only the first detection of a stream is judged (the ring buffer skips the rest of a reporting frame)",
@@ -428,7 +452,9 @@ check(
 
 check(
     "C19",
-    runs=[dict(harness="C19_noise", flavour="plain")],
+    runs=[dict(harness="C19_noise", flavour="plain"),
+          # thorough only: the quick workload once more on the ASan+UBSan build (same oracles; any sanitizer report is a violation)
+          dict(harness="C19_noise", flavour="asan", tiers=("thorough",), harness_tier="quick", timeout={"quick": 3600, "thorough": 14400})],
     rule=("awgn for lengths 1e4..1e5 (quick) / 1e6 (thorough), requested SNR -10..80 dB, signal powers over 120 dB, tones / broadband / "
           "two-level signals, real and complex: noise power (sum over both components for complex) within 6 standard errors (sqrt(2/n) real, "
           "sqrt(1/n) complex) of P_x/10^(snr/10), zero mean, lag-1..8 autocorrelation within 6/sqrt(n), 4th standardised moment within "
@@ -440,7 +466,7 @@ check(
     min_distinct={"quick": 700, "thorough": 20000},
     min_obs={"quick": {"awgn_cases_real": 25, "awgn_cases_complex": 25, "thd_cases": 50, "replayed_scripts": 100},
              "thorough": {"awgn_cases_real": 100, "awgn_cases_complex": 100, "thd_cases": 250, "replayed_scripts": 1000}},
-    technique="runtime monitor: statistical oracles with explicit standard-error tolerances on y-x, analytic tone/harmonic ground truth, bitwise replay of generator scripts",
+    technique="runtime monitor: statistical oracles with explicit standard-error tolerances on y-x, analytic tone/harmonic ground truth, bitwise replay of generator scripts; thorough: the quick workload repeated on the ASan+UBSan build",
     level_text=("The noise actually injected (y - x) is measured and compared with the requested power at 6 standard errors; measurement "
                 "functions are judged on signals whose harmonic content is known by construction; generator scripts are replayed bitwise. "
                 "Held on the cases counted in the evidence; a bias below 6 standard errors at the largest n is not detectable."),
@@ -449,7 +475,9 @@ check(
 
 check(
     "C20",
-    runs=[dict(harness="C20_dynamics", flavour="plain")],
+    runs=[dict(harness="C20_dynamics", flavour="plain"),
+          # thorough only: the quick workload once more on the ASan+UBSan build (same oracles; any sanitizer report is a violation)
+          dict(harness="C20_dynamics", flavour="asan", tiers=("thorough",), harness_tier="quick", timeout={"quick": 3600, "thorough": 14400})],
     rule=("random configurations (thresholds -50..0 dB, ratios 1..50, knee widths 0..20 dB, attack/release 0..4 s, sample rates 8k..192k): "
           "with zero attack and release, Compressor and Limiter on input levels -100..+20 dB plus a 0.01 dB grid and 1e-7 dB steps around both "
           "knee edges vs the long-double static characteristic (1e-9 dB), gain in [0,1+1e-12], monotone, continuous across the knee edges; "
@@ -461,7 +489,7 @@ check(
     min_distinct={"quick": 3500, "thorough": 70000},
     min_obs={"quick": {"static_levels_judged": 100000, "timing_measurements": 150, "agc_runs_inside_gain_range": 20, "limiter_ceiling_samples": 1000000},
              "thorough": {"static_levels_judged": 1000000, "timing_measurements": 800, "agc_runs_inside_gain_range": 100, "limiter_ceiling_samples": 10000000}},
-    technique="runtime monitor: long-double static characteristic as oracle on level sweeps, range/ceiling invariants on arbitrary signals, step-response timing monitor",
+    technique="runtime monitor: long-double static characteristic as oracle on level sweeps, range/ceiling invariants on arbitrary signals, step-response timing monitor; thorough: the quick workload repeated on the ASan+UBSan build",
     level_text=("Processors are executed on level sweeps finer than the knee and on arbitrary signals; static levels are compared with the "
                 "documented characteristic in extended precision and the invariants are asserted on every sample. Held on the samples "
                 "counted in the evidence."),
